@@ -152,8 +152,10 @@ impl<'a> Lexer<'a> {
         let mut pos = self.skip_whitespace(self.pos)?;
         while self.buf.get(pos) == Some(&b'%') {
             pos += 1;
-            if let Some(off) = self.buf[pos..].iter().position(|&b| b == b'\n') {
-                pos += off+1;
+            // a comment extends to the end of the line (CR or LF) or of the buffer
+            match self.buf[pos..].iter().position(|&b| b == b'\n' || b == b'\r') {
+                Some(off) => pos += off+1,
+                None => pos = self.buf.len()
             }
             
             // Move away from eventual whitespace
